@@ -2,7 +2,7 @@
 use crate::gen::{self, Input};
 use crate::proto::{fx, guarded, opt_usize, v3, Out};
 use crate::rng::Rng;
-use meshless_voronoi::integrals::{AreaCentroidIntegral, VolumeCentroidIntegral};
+use meshless_voronoi::integrals::{AreaCentroidIntegral, AreaIntegral, VolumeCentroidIntegral, VolumeIntegral};
 use meshless_voronoi::{Voronoi, VoronoiIntegrator};
 
 /// plane facts the bookkeeping model needs, per constructed cell:
@@ -31,6 +31,17 @@ fn plane_info(inp: &Input, vi: &VoronoiIntegrator<meshless_voronoi::verif_hooks:
         }
     }
     format!("PI {}{}", n, s)
+}
+
+/// `get_cell_at(i)` for every generator: `0` absent, `1` present with `idx == i`, `2` present with another `idx`
+pub fn gca<M: meshless_voronoi::ConvexCellMarker + 'static>(vi: &VoronoiIntegrator<M>, n: usize) -> String {
+    (0..n)
+        .map(|i| match vi.get_cell_at(i) {
+            None => '0',
+            Some(c) if c.idx == i => '1',
+            Some(_) => '2',
+        })
+        .collect()
 }
 
 pub fn run_routes(out: &mut Out, rng: &mut Rng, thorough: bool) {
@@ -98,6 +109,20 @@ fn emit_routes(out: &mut Out, inp: &Input, mask: &Option<Vec<bool>>) {
         for f in &fnn {
             s.push_str(&format!(" {} {} {}", crate::ser::face_header(f), fx(f.integral().area), v3(f.integral().centroid)));
         }
+        // the plain integrals accumulate the same sums as the centroid variants
+        let vo = vi.compute_cell_integrals::<VolumeIntegral>();
+        s.push_str(&format!(" VO {}", vo.len()));
+        for c in &vo {
+            s.push_str(&format!(" {}", fx(c.volume)));
+        }
+        let ao = vi.compute_face_integrals::<AreaIntegral>();
+        s.push_str(&format!(" AO {}", ao.len()));
+        for f in &ao {
+            s.push_str(&format!(" {}", fx(f.integral().area)));
+        }
+        // get_cell_at: present exactly for constructed cells, and it is the cell of that generator
+        s.push_str(" GC ");
+        s.push_str(&gca(&vi, inp.gens.len()));
         // with stored faces (3D only): a different decomposition, compared up to rounding
         if inp.dim == 3 {
             let vif = vi.clone().with_faces();
@@ -146,6 +171,8 @@ pub fn run_partial(out: &mut Out, rng: &mut Rng, thorough: bool) {
                         for m in &masks {
                             let p = Voronoi::build_partial(&inp.gens, m, inp.anchor, inp.width, inp.dimensionality(), inp.periodic);
                             s.push_str(&format!(" MASK {} {}", m.iter().map(|&b| if b { '1' } else { '0' }).collect::<String>(), crate::ser::voronoi(&p)));
+                            let vi = VoronoiIntegrator::build(&inp.gens, Some(m), inp.anchor, inp.width, inp.dimensionality(), inp.periodic);
+                            s.push_str(&format!(" GCA {}", gca(&vi, inp.gens.len())));
                         }
                         s
                     });
